@@ -54,6 +54,7 @@ type c24Peer struct {
 	addr boson.Address
 	bin  int
 	boot bool
+	full bool // boot node that also carries the FullNode bit
 }
 
 func c24P(name string, bin, serial int) *c24Peer {
@@ -68,13 +69,15 @@ var (
 	c24W    = c24P("w", 1, 11)
 	c24B    = c24P("b", 0, 12)
 	c24Boot = &c24Peer{name: "BOOT", addr: c24Addr(1, 13), bin: 1, boot: true}
-	c24X1   = c24Pre[1]
-	c24A0   = c24Pre[0]
+	// a boot node as the product starts it: it advertises the BootNode AND the FullNode bit
+	c24BootFull = &c24Peer{name: "BOOT+FULL", addr: c24Addr(0, 14), bin: 0, boot: true, full: true}
+	c24X1       = c24Pre[1]
+	c24A0       = c24Pre[0]
 	// peers that are only made known (AddPeers), never connected
 	c24K0  = c24P("k0", 0, 20) // preloaded as known+public in scenario "diverged"
 	c24G0  = c24P("g0", 0, 21)
 	c24G3  = c24P("g3", 3, 22)
-	c24All = append(append([]*c24Peer{}, c24Pre...), c24U, c24W, c24B, c24Boot, c24K0, c24G0, c24G3)
+	c24All = append(append([]*c24Peer{}, c24Pre...), c24U, c24W, c24B, c24Boot, c24BootFull, c24K0, c24G0, c24G3)
 )
 
 // reference depth of a peer set with radius MaxPO: the largest d allowed by the clauses of C22
@@ -149,7 +152,11 @@ func c24NewKad(x *mc.X) (*Kad, func()) {
 
 func c24Mode(p *c24Peer) aurora.Model {
 	if p.boot {
-		return aurora.NewModel().SetMode(aurora.BootNode)
+		m := aurora.NewModel().SetMode(aurora.BootNode)
+		if p.full {
+			m = m.SetMode(aurora.FullNode)
+		}
+		return m
 	}
 	return aurora.NewModel().SetMode(aurora.FullNode)
 }
@@ -207,7 +214,8 @@ func c24Ops(sc int) []c24Op {
 	ops = append(ops, c24Op{kind: "disc", peer: c24X1}, c24Op{kind: "force-disc", peer: c24X1},
 		c24Op{kind: "protect", list: []*c24Peer{c24W}}, c24Op{kind: "protect", list: nil})
 	if sc != 1 {
-		ops = append(ops, c24Op{kind: "out", peer: c24Boot}, c24Op{kind: "disc", peer: c24Boot})
+		ops = append(ops, c24Op{kind: "out", peer: c24Boot}, c24Op{kind: "disc", peer: c24Boot},
+			c24Op{kind: "out", peer: c24BootFull}, c24Op{kind: "disc", peer: c24BootFull})
 	}
 	if sc == 0 {
 		ops = append(ops, c24Op{kind: "disc", peer: c24A0})
@@ -235,7 +243,7 @@ func TestVerifC24(t *testing.T) {
 		"depth":                     fmt.Sprintf("%d (scenario empty: %d)", depth, depth-1),
 		"scenarios":                 scenarios,
 		"operations":                opNames,
-		"peers":                     "u, w, x1..x4, BOOT (boot node): bin 1; b, a0, k0, g0: bin 0; z1..z3: bin 2; g3: bin 3 (k0, g0, g3 are only ever made known, never connected)",
+		"peers":                     "u, w, x1..x4, BOOT (boot node, BootNode bit only): bin 1; BOOT+FULL (boot node with BootNode and FullNode bits), b, a0, k0, g0: bin 0; z1..z3: bin 2; g3: bin 3 (k0, g0, g3 are only ever made known, never connected)",
 		"thresholds":                "Options.BinMaxPeers=5 -> overSaturation 5, saturation 2, quickSaturation 1",
 		"observed_after_every_step": "EachPeer, EachPeerRev, EachKnownPeer, Snapshot (Connected, Population, per-bin lists), SnapshotConnected, Pick for u, w, b",
 		"pruning":                   "canonical state = ordered connected/known bins, reachability of every peer, protect list, depth",
@@ -359,7 +367,7 @@ func TestVerifC24(t *testing.T) {
 					}
 				}
 				for _, g := range got {
-					if g == c24Boot.name {
+					if g == c24Boot.name || g == c24BootFull.name {
 						x.Fail("boot-node-counted-as-connected", "%s %s: boot node reported as connected: %v", when, what, got)
 					}
 				}
